@@ -520,7 +520,14 @@ var (
 	flagOnly    = flag.String("only", "", "comma-separated base kinds to run (default all)")
 )
 
+// journalBuff: the journal code sizes its bufio reader, its writer buffer and the 2x window of
+// possibleDataLossCheck by the package variable journalWriterBuffSize (5 MiB by default; dolt's
+// own tests lower it).  The harness lowers it in the workers and in the parent (which passes it to
+// the model) so that a journal open does not clear ~15 MiB per case; the files are < 1 KiB.
+const journalBuff = 1 << 16
+
 func main() {
+	nbs.VerifCorSetJournalBuffSize(journalBuff)
 	// the worker must not go through hx.Init (which creates report state); parse flags by hand
 	for _, a := range os.Args[1:] {
 		if a == "-worker" || a == "--worker" {
@@ -543,7 +550,7 @@ func mustBase(e *hx.Env, b *baseInfo, err error) *baseInfo {
 	return b
 }
 
-func caseOf(j *job) Case { return Case{Base: j.b.Base, Mut: j.mut, Extra: j.extra} }
+func caseOf(j *job) Case { return Case{Base: j.b.Base, Mut: j.mut, Extra: j.extra, Shape: j.shape} }
 
 func run(e *hx.Env) {
 	only := map[string]bool{}
